@@ -99,24 +99,25 @@ func c03(c *Ctx) {
 		if len(fatalTrue) == 0 {
 			c.R.Bad(load.FuncName(fc)+": fatal arm", c.pos(fc.Pos()), "no SEVERITY_FATAL case found")
 		} else {
-			good := true
-			var ret *ssa.Return
-			for _, e := range fatalTrue {
-				r, ok := e.To().Instrs[len(e.To().Instrs)-1].(*ssa.Return)
-				if !ok {
-					good = false
-					continue
-				}
-				ret = r
-				if nonNilError(r) != "nonnil" {
-					good = false
-				}
-			}
+			// from the FATAL arm every way out of Compose returns a non-nil error, and
+			// no further pipeline step runs (path-sensitive: the arm may first leave a
+			// helper's result in a variable that the caller tests)
+			rets := cfgx.ErrorReturnsFrom(fatalTrue, nil)
+			good := len(rets) > 0
 			p := fc.Pos()
-			if ret != nil {
-				p = ret.Pos()
+			for _, r := range rets {
+				if !r.NonNil && classifyErr(r.Val) != "nonnil" {
+					good = false
+					p = r.At.Pos()
+				}
 			}
-			c.R.Check(good, load.FuncName(fc)+": fatal arm returns error", c.pos(p), "the FATAL arm returns immediately with a non-nil error", "the FATAL arm does not return a non-nil error immediately")
+			for _, rf := range calls(fc, runFnInv) {
+				if reach, _ := cfgx.ReachableFromEdges(fatalTrue, rf, nil, nil); reach {
+					good = false
+					p = rf.Pos()
+				}
+			}
+			c.R.Check(good, load.FuncName(fc)+": fatal arm returns error", c.pos(p), "from the FATAL arm every return carries a non-nil error and no further step runs", "the FATAL arm does not return a non-nil error immediately")
 		}
 	}
 
@@ -130,16 +131,8 @@ func c03(c *Ctx) {
 				c.R.Bad(load.FuncName(rf)+": loop", c.pos(rf.Pos()), "the wrapped RunFunction call is not in a loop")
 			} else {
 				h := cfgx.LoopHeader(loop)
-				bounded := false
-				if iff, ok := h.Instrs[len(h.Instrs)-1].(*ssa.If); ok {
-					if bo, ok := iff.Cond.(*ssa.BinOp); ok && (bo.Op == token.LEQ || bo.Op == token.LSS) {
-						if _, isC := cfgx.ConstInt(bo.Y); isC {
-							if phi, isPhi := bo.X.(*ssa.Phi); isPhi && phi.Block() == h {
-								bounded = true
-							}
-						}
-					}
-				}
+				boundBlock := loopConstBounded(loop, h)
+				bounded := boundBlock != nil
 				c.R.Check(bounded, load.FuncName(rf)+": bounded", c.pos(inner[0].Pos()), "the loop condition compares an induction variable with a constant bound", "the requirements loop has no constant bound")
 				// equality and fatal edges
 				var okEdgesSet []cfgx.Edge
@@ -162,39 +155,20 @@ func c03(c *Ctx) {
 					}
 				}
 				c.R.Check(eqOK, load.FuncName(rf)+": stability test", c.pos(inner[0].Pos()), "compares this round's requirements with the previous round's using a whole-value equality", "no whole-value equality (reflect.DeepEqual/proto.Equal/cmp.Equal) between this round's and the previous round's requirements was found")
-				for _, b := range rf.Blocks {
-					for _, in := range b.Instrs {
-						if bo, ok := in.(*ssa.BinOp); ok && bo.Op == token.EQL && hasSuffixCall(bo.X, ".GetSeverity") {
-							if v, ok := cfgx.ConstInt(bo.Y); ok && v == 1 {
-								t, _ := cfgx.CondEdges(bo)
-								okEdgesSet = append(okEdgesSet, t...)
-							}
-						}
-					}
-				}
+				fatalT, fatalCmp, fatalByLib := fatalResultEdges(rf)
+				okEdgesSet = append(okEdgesSet, fatalT...)
 				// a response bearing a fatal result is handed back at once: it is
 				// never re-run, and every round examines all results before it
 				// may fetch and iterate.
-				var fatalT []cfgx.Edge
-				var fatalCmp *ssa.BinOp
-				for _, b := range rf.Blocks {
-					for _, in := range b.Instrs {
-						if bo, ok := in.(*ssa.BinOp); ok && bo.Op == token.EQL && hasSuffixCall(bo.X, ".GetSeverity") {
-							if v, ok := cfgx.ConstInt(bo.Y); ok && v == 1 && flow.Default.Any(bo.X, func(y ssa.Value) bool { return hasSuffixCall(y, "RunFunctionResponse).GetResults") }) {
-								t, _ := cfgx.CondEdges(bo)
-								fatalT = append(fatalT, t...)
-								fatalCmp = bo
-							}
-						}
-					}
-				}
 				if len(fatalT) == 0 {
 					c.R.Bad(load.FuncName(rf)+": fatal result ends the rounds", c.pos(inner[0].Pos()), "no test of the response's results for SEVERITY_FATAL: a fatal response whose requirements changed is discarded and the function is run again")
 				} else {
 					again, w := cfgx.ReachableFromEdges(fatalT, inner[0], nil, c.posf())
 					c.R.Check(!again, load.FuncName(rf)+": fatal result ends the rounds", c.pos(fatalCmp.Pos()), "the function is not run again after a fatal result", "the function can be run again after it returned a fatal result (the fatal response is lost)", w...)
 					rl := cfgx.LoopOf(fatalCmp.Block())
-					if rl == nil || rl[inner[0].Block()] {
+					if fatalByLib {
+						c.R.OK(load.FuncName(rf)+": all results examined", c.pos(fatalCmp.Pos()), "slices.ContainsFunc examines every result")
+					} else if rl == nil || rl[inner[0].Block()] {
 						c.R.Bad(load.FuncName(rf)+": all results examined", c.pos(fatalCmp.Pos()), "the fatal test is not inside a loop over the response's results")
 					} else {
 						h2 := cfgx.LoopHeader(rl)
@@ -232,7 +206,7 @@ func c03(c *Ctx) {
 						// reachable from the loop's normal exit
 						exits := []cfgx.Edge{}
 						for _, e := range cfgx.ExitEdgesOf(loop) {
-							if e.From == h {
+							if (boundBlock == nil && e.From == h) || e.From == boundBlock {
 								exits = append(exits, e)
 							}
 						}
@@ -279,43 +253,58 @@ func c03(c *Ctx) {
 				}
 			}
 		}
-		if delStore == nil {
-			c.R.Unknown(load.FuncName(gc)+": delete set", c.pos(gc.Pos()), "no store into the delete set found")
-		} else {
-			var absent []cfgx.Edge
-			for _, b := range gc.Blocks {
-				for _, in := range b.Instrs {
-					if lk, ok := in.(*ssa.Lookup); ok && lk.CommaOk && lk.X == ssa.Value(desired) {
-						for _, r := range *lk.Referrers() {
-							if ex, ok := r.(*ssa.Extract); ok && ex.Index == 1 {
-								_, f := cfgx.CondEdges(ex)
-								absent = append(absent, f...)
-							}
+		// desired[name] lookups keyed by the observed entry's name
+		var absent, present []cfgx.Edge
+		for _, b := range gc.Blocks {
+			for _, in := range b.Instrs {
+				if lk, ok := in.(*ssa.Lookup); ok && lk.CommaOk && lk.X == ssa.Value(desired) {
+					for _, r := range *lk.Referrers() {
+						if ex, ok := r.(*ssa.Extract); ok && ex.Index == 1 {
+							t, f := cfgx.CondEdges(ex)
+							absent = append(absent, f...)
+							present = append(present, t...)
 						}
-						// key must be the range key over observed
-						c.R.Check(flow.Strict.Any(lk.Index, func(v ssa.Value) bool { rg, ok := v.(*ssa.Range); return ok && rg.X == ssa.Value(observed) }), load.FuncName(gc)+": lookup key", c.pos(lk.Pos()), "desired is looked up by the observed entry's name", "desired is not looked up by the name of the observed entry")
 					}
+					// key must be the range key over observed
+					c.R.Check(flow.Strict.Any(lk.Index, func(v ssa.Value) bool { rg, ok := v.(*ssa.Range); return ok && rg.X == ssa.Value(observed) }), load.FuncName(gc)+": lookup key", c.pos(lk.Pos()), "desired is looked up by the observed entry's name", "desired is not looked up by the name of the observed entry")
 				}
 			}
-			c.requireCross(load.FuncName(gc)+": del[name]= only when absent from desired", delStore, absent, "desired[name] lookup !ok")
-			c.R.Check(flow.Strict.Any(delStore.Value, func(v ssa.Value) bool { rg, ok := v.(*ssa.Range); return ok && rg.X == ssa.Value(observed) }), load.FuncName(gc)+": del from observed", c.pos(delStore.Pos()), "entries of the delete set come from observed", "the delete set is not filled from observed")
+		}
+		fromObserved := func(v ssa.Value) bool {
+			return flow.Default.Any(v, func(x ssa.Value) bool { rg, ok := x.(*ssa.Range); return ok && rg.X == ssa.Value(observed) })
 		}
 		dels := calls(gc, clientDelete)
 		upds := calls(gc, clientUpdate)
+		// two shapes: a delete set filled from observed∖desired and then ranged over,
+		// or the delete inside the range over observed, behind the absent edge
+		fused := delStore == nil && len(dels) == 1 && fromObserved(cfgx.CallArgs(dels[0])[1])
+		if delStore == nil && !fused {
+			c.R.Unknown(load.FuncName(gc)+": delete set", c.pos(gc.Pos()), "neither a delete set filled from observed nor a delete inside the range over observed was found")
+		} else if !fused {
+			c.requireCross(load.FuncName(gc)+": del[name]= only when absent from desired", delStore, absent, "desired[name] lookup !ok")
+			c.R.Check(flow.Strict.Any(delStore.Value, func(v ssa.Value) bool { rg, ok := v.(*ssa.Range); return ok && rg.X == ssa.Value(observed) }), load.FuncName(gc)+": del from observed", c.pos(delStore.Pos()), "entries of the delete set come from observed", "the delete set is not filled from observed")
+		} else {
+			for _, w := range append(append([]ssa.CallInstruction{}, upds...), dels...) {
+				c.requireCross(site(w)+" only when absent from desired", w, absent, "desired[name] lookup !ok")
+			}
+			c.R.OK(load.FuncName(gc)+": del from observed", c.pos(dels[0].Pos()), "the object deleted is the observed entry of this iteration")
+		}
 		if c.expect("Delete", len(dels), 1, gc) {
-			c.R.Check(delStore != nil && flow.Default.Any(cfgx.CallArgs(dels[0])[1], func(v ssa.Value) bool { rg, ok := v.(*ssa.Range); return ok && rg.X == delStore.Map }), site(dels[0])+" from-delete-set", c.pos(dels[0].Pos()), "the object deleted ranges over the delete set", "the object deleted does not come from the delete set")
+			if fused {
+				c.R.OK(site(dels[0])+" from-delete-set", c.pos(dels[0].Pos()), "the object deleted is the observed entry that is absent from desired")
+			} else {
+				c.R.Check(delStore != nil && flow.Default.Any(cfgx.CallArgs(dels[0])[1], func(v ssa.Value) bool { rg, ok := v.(*ssa.Range); return ok && rg.X == delStore.Map }), site(dels[0])+" from-delete-set", c.pos(dels[0].Pos()), "the object deleted ranges over the delete set", "the object deleted does not come from the delete set")
+			}
 			loop := cfgx.LoopOf(dels[0].Block())
 			if loop != nil {
-				by, w := cfgx.LoopBypass(loop, map[*ssa.BasicBlock]bool{dels[0].Block(): true}, nil, c.posf())
+				var allowedSkip []cfgx.Edge
+				if fused {
+					allowedSkip = present // still desired: nothing to delete
+				}
+				by, w := cfgx.LoopBypass(loop, map[*ssa.BasicBlock]bool{dels[0].Block(): true}, allowedSkip, c.posf())
 				c.R.Check(!by, load.FuncName(gc)+": no skip in delete loop", c.pos(dels[0].Pos()), "every iteration reaches the Delete or returns an error", "an iteration of the delete loop can skip the Delete", w...)
 				for _, r := range cfgx.ReturnsFromLoop(loop) {
 					c.R.Check(nonNilError(r) != "nil", load.FuncName(gc)+": early exit of delete loop @b"+itoa(r.Block().Index), c.pos(r.Pos()), "returns an error", "a success return inside the delete loop ends garbage collection after a subset of the deletes")
-				}
-				for _, bb := range gc.Blocks {
-					if r, ok := bb.Instrs[len(bb.Instrs)-1].(*ssa.Return); ok && !loop[bb] {
-						// returns outside loops
-						_ = r
-					}
 				}
 			}
 			// the label-cleanup Update precedes Delete and its failure (other than NotFound) returns
@@ -498,4 +487,145 @@ func classifyErr(e ssa.Value) string {
 		return "nonnil"
 	}
 	return "nonnil-maybe"
+}
+
+// loopConstBounded: some test inside the loop compares an induction variable
+// (a phi of the loop that is stepped by a constant) with a constant, leaves the
+// loop on one side, and lies on every cycle of the loop (it is the header or
+// dominates every latch).
+func loopConstBounded(loop map[*ssa.BasicBlock]bool, h *ssa.BasicBlock) *ssa.BasicBlock {
+	if h == nil {
+		return nil
+	}
+	isInduction := func(v ssa.Value) bool {
+		for i := 0; i < 2; i++ {
+			if bo, ok := v.(*ssa.BinOp); ok && (bo.Op == token.ADD || bo.Op == token.SUB) {
+				if _, isC := cfgx.ConstInt(bo.Y); isC {
+					v = bo.X
+					continue
+				}
+			}
+			break
+		}
+		phi, ok := v.(*ssa.Phi)
+		if !ok || !loop[phi.Block()] {
+			return false
+		}
+		for _, e := range phi.Edges {
+			if bo, ok := e.(*ssa.BinOp); ok && (bo.Op == token.ADD || bo.Op == token.SUB) && bo.X == ssa.Value(phi) {
+				if _, isC := cfgx.ConstInt(bo.Y); isC {
+					return true
+				}
+			}
+		}
+		return false
+	}
+	for b := range loop {
+		iff, ok := b.Instrs[len(b.Instrs)-1].(*ssa.If)
+		if !ok {
+			continue
+		}
+		bo, ok := iff.Cond.(*ssa.BinOp)
+		if !ok {
+			continue
+		}
+		switch bo.Op {
+		case token.LSS, token.LEQ, token.GTR, token.GEQ, token.NEQ:
+		default:
+			continue
+		}
+		_, cy := cfgx.ConstInt(bo.Y)
+		_, cx := cfgx.ConstInt(bo.X)
+		if !((cy && isInduction(bo.X)) || (cx && isInduction(bo.Y))) {
+			continue
+		}
+		exits := false
+		for _, s := range b.Succs {
+			if !loop[s] {
+				exits = true
+			}
+		}
+		if !exits {
+			continue
+		}
+		onEveryCycle := b == h
+		if !onEveryCycle {
+			onEveryCycle = true
+			for _, p := range h.Preds {
+				if loop[p] && !b.Dominates(p) {
+					onEveryCycle = false
+				}
+			}
+		}
+		if onEveryCycle {
+			return b
+		}
+	}
+	return nil
+}
+
+// fatalResultEdges finds where fn learns that the response carries a result of
+// SEVERITY_FATAL: the FATAL edge of a comparison of rs.GetSeverity() (rs taken
+// from rsp.GetResults()) with the constant, in either polarity, or the true edge
+// of slices.ContainsFunc(rsp.GetResults(), pred) where pred returns exactly such
+// a comparison (byLib: the library, not a loop of fn, walks the results).
+func fatalResultEdges(fn *ssa.Function) (edges []cfgx.Edge, at ssa.Instruction, byLib bool) {
+	isSevFatal := func(bo *ssa.BinOp) bool {
+		if bo.Op != token.EQL && bo.Op != token.NEQ {
+			return false
+		}
+		v, ok := cfgx.ConstInt(bo.Y)
+		return ok && v == 1 && hasSuffixCall(bo.X, ".GetSeverity")
+	}
+	for _, b := range fn.Blocks {
+		for _, in := range b.Instrs {
+			switch x := in.(type) {
+			case *ssa.BinOp:
+				if isSevFatal(x) && flow.Default.Any(x.X, func(y ssa.Value) bool { return hasSuffixCall(y, "RunFunctionResponse).GetResults") }) {
+					t, f := cfgx.CondEdges(x)
+					if x.Op == token.NEQ {
+						t = f
+					}
+					edges = append(edges, t...)
+					at = x
+				}
+			case *ssa.Call:
+				n := cfgx.CalleeName(x)
+				if i := strings.Index(n, "["); i > 0 {
+					n = n[:i]
+				}
+				if n != "slices.ContainsFunc" || len(x.Call.Args) != 2 || !hasSuffixCall(x.Call.Args[0], "RunFunctionResponse).GetResults") {
+					continue
+				}
+				var pred *ssa.Function
+				switch p := x.Call.Args[1].(type) {
+				case *ssa.Function:
+					pred = p
+				case *ssa.MakeClosure:
+					pred, _ = p.Fn.(*ssa.Function)
+				}
+				if pred == nil || pred.Blocks == nil {
+					continue
+				}
+				good := true
+				n2 := 0
+				for _, pb := range pred.Blocks {
+					if r, ok := pb.Instrs[len(pb.Instrs)-1].(*ssa.Return); ok {
+						n2++
+						bo, ok := r.Results[0].(*ssa.BinOp)
+						if !ok || bo.Op != token.EQL || !isSevFatal(bo) || flow.Root(underIface(cfgx.Receiver(bo.X.(ssa.CallInstruction)))) != ssa.Value(pred.Params[0]) {
+							good = false
+						}
+					}
+				}
+				if good && n2 > 0 {
+					t, _ := cfgx.CallCondEdges(x)
+					edges = append(edges, t...)
+					at = x
+					byLib = true
+				}
+			}
+		}
+	}
+	return
 }
